@@ -204,9 +204,10 @@ def gstep (g : GCluster) (line : String) : GCluster × String :=
             let r := nd'.client c'
             (acc.1.clientOne i c', acc.2.1 ++ [r.2.1], acc.2.2 ++ r.2.2.toList)
           | none => acc) (g, [], [])
-        let reply : Redis.Reply := match acc.2.1 with
-          | [r] => r
-          | rs => .int (rs.foldl (fun a r => a + replyInt r) 0)
+        let reply : Redis.Reply := match c, acc.2.1 with
+          | .mset _, _ => .ok
+          | _, [r] => r
+          | _, rs => .int (rs.foldl (fun a r => a + replyInt r) 0)
         let dumpM := match acc.1.nodes[i]? with | some nd' => C01.showDump nd'.exec 0 | none => "?"
         let next := match subs with
           | [c1] => adoptOne g i nd c1 reply impl
